@@ -353,10 +353,16 @@ func c18RunOp(x *Extractor, op c18Op, worker int, step *atomic.Int64, run *c18Ru
 			count("V")
 			return nil, nil
 		})
-		if st != nil {
+		if st != nil && st != fmt.Stringer(c18Str("first half")) { // (the latter: what a pair installed under this type)
 			res.err = fmt.Errorf("got %v for a decoder that returns nil", st)
 		}
 		res.val = &c18Val{id: -2, payload: "nil-interface"}
+	case 'W': // a pair whose first half has an interface type (as the field/annotation pairs of the library have)
+		b := &c18Other{id: c18NextID.Add(1)}
+		var first fmt.Stringer
+		first, res.other = StoreOrLoadPair[fmt.Stringer, *c18Other](x, op.ref, c18Str("first half"), b)
+		_ = first // a nil interface value cached by an earlier decode is a legitimate answer
+		res.val = &c18Val{id: -3, payload: "pair-with-interface"}
 	case 'Q': // a plain Decode of the pair's second type
 		var o *c18Other
 		o, res.err = Decode(c, op.ref, func(c Cursor, obj Object, _ bool) (*c18Other, error) {
@@ -371,6 +377,10 @@ func c18RunOp(x *Extractor, op c18Op, worker int, step *atomic.Int64, run *c18Ru
 	res.ret = step.Load()
 	return res
 }
+
+type c18Str string
+
+func (s c18Str) String() string { return string(s) }
 
 // c18Programs are the small concurrent programs whose schedule trees are
 // enumerated.  Objects: 1 <-> 2 reference each other through /Next; 3 is a
@@ -409,6 +419,8 @@ func c18Programs() []c18Program {
 		{name: "Z1|Z1", prog: [][]c18Op{{op('Z', a)}, {op('Z', a)}}},
 		{name: "X1Z1|Z1X1", prog: [][]c18Op{{op('X', a), op('Z', a)}, {op('Z', a), op('X', a)}}, depth: 4, heavy: true},
 		{name: "V1V1|V1 (decoder returns a nil interface value)", prog: [][]c18Op{{op('V', a), op('V', a)}, {op('V', a)}}, depth: 3},
+		{name: "V1|W1 (pair with an interface-typed half next to a decoder that returns nil)", prog: [][]c18Op{{op('V', a)}, {op('W', a)}}, depth: 2},
+		{name: "W1|W1Q1", prog: [][]c18Op{{op('W', a)}, {op('W', a), op('Q', a)}}, depth: 2},
 		{name: "Y1|Y1", prog: [][]c18Op{{op('Y', a)}, {op('Y', a)}}},
 		{name: "Y1|X1", prog: [][]c18Op{{op('Y', a)}, {op('X', a)}}, depth: 2},
 		{name: "F1|D1", prog: [][]c18Op{{op('F', a)}, {op('D', a)}}},
@@ -562,7 +574,7 @@ func c18Judge(c *kit.Case, p c18Program, run *c18Run, objs c18Getter) {
 			}
 			continue
 		}
-		if res.op.kind == 'Q' || res.op.kind == 'Z' {
+		if res.op.kind == 'Q' || res.op.kind == 'Z' || res.op.kind == 'W' {
 			if res.other == nil {
 				c.Violationf("nil-result/"+string(res.op.kind), "%s\n%v returned nil without error", ctx(), res.op)
 			} else if prev, ok := others[res.op.ref]; ok && prev != res.other {
